@@ -5,4 +5,4 @@ Extraction Language OCaml.
 Extraction "model.ml" base_anchor s0 step run getf f_maxf f_cont
   c09_ok b_conn b_stream b_frame b_credit b_strand chunks_fit hdr_chunks
   c08_ok c08_prio_ok b_faithful b_direct step_agrees block_seqs
-  forward_preface forward_preface_single maxf_of rfc_valid no_open_push no_empty_hfrag b_table tab_bound.
+  forward_preface forward_preface_single maxf_of rfc_valid no_open_push no_empty_hfrag b_table tab_bound b_complete b_credit_final.
